@@ -44,6 +44,14 @@ static uint child_proc(void* arg)
   return (uint)v;
 }
 
+// member-function overload of Thread::start: the object's run() is the thread function
+struct Runner
+{
+  int v;
+  uint run() { return child_proc((void*)(long)v); }
+};
+static Runner runnerA[MAXT + 1], runnerB[MAXT + 1];
+
 static void run_prog(void* arg)
 {
   int t = (int)(long)arg;
@@ -112,6 +120,10 @@ static void run_prog(void* arg)
       r = sets;
     }
     else if(!strcmp(f, "start")) { thr[t] = new Thread; r = thr[t]->start(child_proc, (void*)(long)(t * 100 + i)); sched_event("\"op\":\"started\",\"t\":%d,\"v\":%d", t, t * 100 + i); }
+    // mstart: start through the member-function overload; restart: a second start() on the same Thread object while the first
+    // thread has not been joined - it must fail and must not disturb the thread that is running
+    else if(!strcmp(f, "mstart")) { thr[t] = new Thread; runnerA[t].v = t * 100 + i; r = thr[t]->start(runnerA[t], &Runner::run); sched_event("\"op\":\"started\",\"t\":%d,\"v\":%d", t, t * 100 + i); }
+    else if(!strcmp(f, "restart")) { runnerB[t].v = t * 100 + 50 + i; r = thr[t] ? (int)thr[t]->start(runnerB[t], &Runner::run) : 0; }
     else if(!strcmp(f, "join")) { r = thr[t] ? (int)thr[t]->join() : -1; }
     else { sched_fail("scenario: unknown op %s", op); }
     sched_event("\"op\":\"ret\",\"t\":%d,\"f\":\"%s\",\"r\":%d", t, lf, r);
